@@ -541,7 +541,7 @@ func (t *ZeroAllocTokenizer) TokenizeHtmlPreserving() ([]Token, error) {
 			} else {
 				// Process variable tags with optimized tokenization
 				if len(tagContent) > 0 {
-					if !strings.ContainsAny(tagContent, ".|[](){}\"',+-*/=!<>%&^~") {
+					if isIdentifier(tagContent) {
 						// Simple variable name
 						identifier := t.GetStringConstant(tagContent)
 						t.AddToken(TOKEN_NAME, identifier, t.line)
@@ -589,6 +589,22 @@ func lowerASCII(s string) string {
 		}
 	}
 	return string(b)
+}
+
+// isIdentifier reports whether s is a single variable name: letters, digits and underscores,
+// not starting with a digit. Anything else ("a and b", "4", "x is defined", "a ? b : c") is
+// an expression and has to go through the expression tokenizer.
+func isIdentifier(s string) bool {
+	if len(s) == 0 {
+		return false
+	}
+	for i := 0; i < len(s); i++ {
+		c := s[i]
+		if !(c == '_' || (c >= 'a' && c <= 'z') || (c >= 'A' && c <= 'Z') || (i > 0 && c >= '0' && c <= '9')) {
+			return false
+		}
+	}
+	return true
 }
 
 // processBlockTag handles specialized block tag tokenization
@@ -1291,7 +1307,7 @@ func (t *ZeroAllocTokenizer) TokenizeOptimized() ([]Token, error) {
 				// Process variable tags using optimized tokenization
 				if len(tagContent) > 0 {
 					// Check if it's a simple variable or a complex expression
-					if !strings.ContainsAny(tagContent, ".|[](){}\"',+-*/=!<>%&^~") {
+					if isIdentifier(tagContent) {
 						// Simple variable name - use string interning for efficiency
 						identifier := Intern(tagContent)
 						t.AddToken(TOKEN_NAME, identifier, t.line)
